@@ -1,5 +1,6 @@
 import DeltaModel.Proto
 import DeltaModel.Machine
+import DeltaModel.IngestMachine
 /-!
 Model driver for the line state machine.
 
@@ -8,6 +9,11 @@ Request:  `machine.run <cfg> <line> <line> ...`
            `colorOnly=0,fileRaw=0,fileOmit=0,fileDeco=1,...`
   <line> = `raw/text/g.g.g/commitRe/blame/grep/submodule` (x-hex strings; graphemes joined
            by `.`; submodule `-` or x-hex)
+          `machine.runraw <cfg> <maxLen> <items of the truncation symbol> <rawline> <rawline> ...`  (C01, session 4)
+  <rawline> = `chars/tz/items/g.g.g/commitRe/blame/grep/submodule`: the input line, the CR test, the partition of
+           the CR-processed line (<items> = `-` or items joined by `|`: `T<cluster>,<width>;...` / `E<escape sequence>`),
+           and the facts of the ingested line; the lines are ingested by `IngestMachine.toL` and run as above;
+           response: as `machine.run` plus a last field `<raw_line>/<line>;...` (what the ingest model made)
 Response: `ok <rows> <obs>;<obs>;...`
   <rows> = `kind:text:src` joined by `,` (`-` if none); <obs> per line (and one for the end) =
            `state,outRows,bufRows,minus,plus,orderOk`
@@ -120,4 +126,60 @@ def stepMachine (line : String) : String :=
           "ok " ++ rows ++ " " ++ ";".intercalate (obs ++ [obsStr "End" mf])
   | _ => "ERR"
 
-def main : IO Unit := serve stepMachine
+-- machine.runraw (C01 session 4): raw input lines through `IngestMachine` ----------------------------
+
+def gOf (s : String) : Option Line.G :=
+  match s.splitOn "," with
+  | [g, w] => do
+    let g ← stringOfField g
+    let w ← w.toNat?
+    pure ⟨g.toList, w⟩
+  | _ => none
+
+def itemOf (s : String) : Option Line.Item :=
+  if s.startsWith "E" then (stringOfField (s.drop 1).toString).map fun e => Line.Item.esc e.toList
+  else if s = "T" then some (.text [])
+  else if s.startsWith "T" then ((s.drop 1).toString.splitOn ";").mapM gOf |>.map Line.Item.text
+  else none
+
+def itemsOf (s : String) : Option (List Line.Item) :=
+  if s = "-" then some [] else (s.splitOn "|").mapM itemOf
+
+def rawLineOf (s : String) : Option IngestMachine.RawLine :=
+  match s.splitOn "/" with
+  | [chars, tz, items, gs, c, b, g, sub] => do
+    let chars ← stringOfField chars
+    let items ← itemsOf items
+    let gl ← if gs = "" then some [] else (gs.splitOn ".").mapM fun f => (stringOfField f).map String.toList
+    let sub ← if sub = "-" then some none else (stringOfField sub).map (fun x => some x.toList)
+    pure { chars := chars.toList, tailZeroWidth := tz = "1", items := items,
+           facts := { raw := [], text := [], graphemes := gl, commitRe := c = "1", blame := b = "1",
+                      grep := g.toNat?.getD 0, submodule := sub } }
+  | _ => none
+
+def stepMachineRaw (line : String) : String :=
+  match fields line with
+  | "machine.runraw" :: cfg :: maxLen :: sym :: rs =>
+    match rs.mapM rawLineOf, itemsOf sym, maxLen.toNat? with
+    | some rs, some sym, some maxLen =>
+      let cfg := cfgOf cfg
+      let ic : IngestMachine.ICfg := { maxLen := maxLen, sym := sym }
+      match IngestMachine.ingestAll ic rs with
+      | none => "PANIC " ++ hexOfString "debug_assert: strange grapheme width (truncate_str_impl)"
+      | some ls =>
+        let wf := rs.all fun r => r.wf
+        match runObs cfg {} ls [] with
+        | .error e => "PANIC " ++ hexOfString e
+        | .ok (m, obs) =>
+          match finish cfg m with
+          | .error e => "PANIC " ++ hexOfString e
+          | .ok mf =>
+            let rows := if mf.out = [] then "-" else ",".intercalate (mf.out.map rowStr)
+            let ing := ";".intercalate (ls.map fun l =>
+              hexOfString (String.ofList l.raw) ++ "/" ++ hexOfString (String.ofList l.text))
+            "ok " ++ rows ++ " " ++ ";".intercalate (obs ++ [obsStr "End" mf]) ++ " " ++
+              (if ing = "" then "-" else ing) ++ " " ++ (if wf then "wf" else "notwf")
+    | _, _, _ => "ERR bad raw line"
+  | _ => stepMachine line
+
+def main : IO Unit := serve stepMachineRaw
